@@ -5,6 +5,7 @@
 //! usage: c20 exh  <variant> <layout> <free> <alphabet> <len>    <shard> <nshards> <seed>
 //!        c20 rnd  <variant> <layout> <free> <alphabet> <maxlen> <shard> <nshards> <seed> <ncases>
 //!        c20 hist <variant> <layout> <free> <op> <op> ...        (ops as printed, '_' for blanks: an_0 ad_1_1 p)
+//!        c20 timed <variant> <scenario>                          (real time: callbacks that take time; see timed.rs)
 //!        c20 epoll512 <nfds>                                     (probe: > 512 ready descriptors on Epoll)
 //!        c20 selectfull                                          (probe: reactor overflow on the real posix_select reactor)
 //!   variant  = ipc | local      WaitSet<ipc::Service> / WaitSet<local::Service>: Epoll on Linux
@@ -38,6 +39,7 @@ use iceoryx2_bb_system_types::file_name::FileName;
 use iceoryx2_bb_system_types::path::Path;
 
 mod probes;
+mod timed;
 mod variants;
 
 pub const ALWAYS: u64 = 1;
@@ -503,6 +505,12 @@ fn main() {
     let rc = catch_unwind(AssertUnwindSafe(|| match a[1].as_str() {
         "epoll512" => probes::epoll512(a[2].parse().unwrap(), &mut out),
         "selectfull" => probes::selectfull(&mut out),
+        "timed" => match a[2].as_str() {
+            "ipc" => timed::run::<ipc::Service, ipc::Service>(&a[2], &a[3], &config, &mut out),
+            "local" => timed::run::<local::Service, local::Service>(&a[2], &a[3], &config, &mut out),
+            "select" => timed::run::<variants::SelectSvc, ipc::Service>(&a[2], &a[3], &config, &mut out),
+            v => panic!("unknown variant {}", v),
+        },
         _ => {
             let cfg = Cfg {
                 mode: a[1].clone(),
